@@ -362,6 +362,13 @@ fn run_job(args: &Args, job: &Value, seq: usize) -> Value {
     }
     let rootpath = tree::join(&sb, rootrel);
     let op = job["op"].clone();
+    if op["k"].as_str() == Some("raw_openat2") {
+        // the kernel's own answer: openat2(root, path, {flags, resolve}) issued directly (oracle of C01/C04)
+        out["res"] = raw_openat2(&rootpath, &op);
+        let _ = std::process::Command::new("chmod").arg("-R").arg("u+rwx").arg(&sb).status();
+        let _ = std::fs::remove_dir_all(&sb);
+        return out;
+    }
     if op["k"].as_str() == Some("capi_errors") {
         let root = Root::open(&rootpath).expect("root");
         use std::os::unix::io::AsFd;
@@ -684,6 +691,44 @@ fn reopen_unshared(rootpath: &Path, sb: &Path, op: &Value) -> Value {
         let _ = tx2.send(());
     }
     th.join().unwrap_or(json!({"panic": "thread"}))
+}
+
+#[repr(C)]
+struct RawOpenHow {
+    flags: u64,
+    mode: u64,
+    resolve: u64,
+}
+
+fn raw_openat2(rootpath: &Path, op: &Value) -> Value {
+    let c = tree::cpath(rootpath);
+    let rootfd = unsafe { libc::open(c.as_ptr(), libc::O_PATH | libc::O_DIRECTORY | libc::O_CLOEXEC) };
+    if rootfd < 0 {
+        return json!({"setup_err": "open root"});
+    }
+    let pb = unhex(op["path"].as_str().unwrap_or(""));
+    let r = if pb.contains(&0) {
+        json!({"setup_err": "NUL in path"})
+    } else {
+        let p = std::ffi::CString::new(pb).unwrap();
+        let how = RawOpenHow {
+            flags: op["flags"].as_u64().unwrap_or(0) | libc::O_CLOEXEC as u64,
+            mode: 0,
+            resolve: op["resolve"].as_u64().unwrap_or(0),
+        };
+        let fd = unsafe {
+            libc::syscall(libc::SYS_openat2, rootfd, p.as_ptr(), &how as *const RawOpenHow, std::mem::size_of::<RawOpenHow>())
+        };
+        if fd >= 0 {
+            let d = describe_fd(fd as i32);
+            unsafe { libc::close(fd as i32) };
+            json!({"ok": d})
+        } else {
+            json!({"err": {"kind": "OsError", "errno": std::io::Error::last_os_error().raw_os_error().unwrap_or(0), "desc": "raw openat2"}})
+        }
+    };
+    unsafe { libc::close(rootfd) };
+    r
 }
 
 fn unreachable_root() -> &'static Root {
